@@ -6,7 +6,10 @@ From Verif Require Import EntryBase LifecycleLts LifecycleDecode.
 
 Definition oracle_C06 (i o : list bytes) : bool :=
   match decode_obs o with
-  | Some ob => C06_ok (o_complete ob) (o_hist ob)
+  | Some ob => C06_ok true (o_hist ob)
+      (* the harness ends every connection it establishes and waits (10 s budget) for the
+         events: the observation is always judged as a COMPLETE run, so a connection whose
+         ender fired but whose DISCONNECTED never came ("hung") fails C06_final *)
   | None => false
   end.
 
